@@ -56,7 +56,7 @@ STACK = st.one_of(node(1), node(2), node(3))
 HIST = H.s_history(max_tests=4, with_control=True, test_kinds=("case", "placeholder", "errorholder"), max_ops=26)
 CASE = st.fixed_dictionaries({"stack": STACK, "history": HIST,
                               # several tests may share an id (id_mod) and may be the very same object reported again (reuse)
-                              "id_mod": st.sampled_from([99, 99, 99, 2, 1]), "reuse": st.booleans(), "share_details": st.booleans()})
+                              "id_mod": st.sampled_from([99, 99, 99, 2, 1]), "reuse": st.booleans(), "share_details": st.sampled_from([False, True, "refill"])})
 
 
 def build(n, path, targets, tbts):
@@ -155,6 +155,8 @@ def run_case(spec):
 
     made = {}
     shared_details = {} if spec.get("share_details") else None     # one dict object per distinct set of attachments
+    if spec.get("share_details") == "refill":
+        shared_details = {"<refill>": {}}                          # ... or one dict for the whole history, refilled
 
     def each_model(fn):
         for m in tbt_models:
